@@ -351,7 +351,7 @@ def fit_declaration_order(ctx):
                          f"{oname} and {ref_fit[k][r]!r} written in name order (same names, same values, same data)", case)
 
 
-def from_data_same_count(ctx):
+def from_data_same_count(ctx, drv=None, pending=None):
     """an array with the right NUMBER of values but another shape is a wrong shape: it is rejected, not re-laid-out; the exact
     shape is accepted and each value is then read back under its own name"""
     from formak import common, python, ui
@@ -365,6 +365,11 @@ def from_data_same_count(ctx):
             cands = [(n * n,), (n * n, 1), (1, n * n), (n, n, 1)]
             right = (n, n)
         return [s for s in dict.fromkeys(cands) if s != right], right
+
+    def model_says(case, kind, names, shape, impl):
+        # the Lean model (fromDataND / fromCovND, the object of C13.shape_nd) is asked the same question
+        if drv is not None:
+            pending.append(("fromdata_nd", drv.add({"op": "fromdata_nd", "L": names, "kind": kind, "shape": list(shape)}), impl, case))
 
     def probe(label, kind, cls, from_data, read_back):
         names = [str(a) for a in cls._arglist]       # the type's own layout: position i of exactly shaped data is its i-th name
@@ -381,7 +386,9 @@ def from_data_same_count(ctx):
                 with fk.quiet():
                     obj = from_data(np.array(values, dtype=float).reshape(shape))
             except Exception:
+                model_says(case, kind, names, shape, "bad-shape")
                 continue
+            model_says(case, kind, names, shape, "ok")
             ctx.fail(f"from-data-same-count:{kind}", f"{label}: data of shape {shape} offered for the shape {right} over {names} is accepted and "
                      f"stored as {np.asarray(getattr(obj, 'data', obj)).tolist()}", case)
         case = {"stream": "from-data-same-count", "through": label, "kind": kind, "names": names, "offered_shape": list(right), "type_shape": list(right)}
@@ -394,6 +401,7 @@ def from_data_same_count(ctx):
             return
         want = ({a: float(values[i]) for i, a in enumerate(names)} if kind == "vector"
                 else {(a, b): float(values[i, j]) for i, a in enumerate(names) for j, b in enumerate(names)})
+        model_says(case, kind, names, right, "ok")
         if got != want:
             ctx.fail(f"from-data-exact-shape:{kind}", f"{label}: data of the exact shape read back by name gives {got}, expected {want}", case)
 
@@ -490,7 +498,7 @@ def run(ctx):
             pending.append(("pyrun", drv.add(req), tw["model"], case))
     cpp_twins(ctx)
     # fixed streams (no draws from ctx.rng)
-    from_data_same_count(ctx)
+    from_data_same_count(ctx, drv, pending)
     fit_declaration_order(ctx)
     ans = drv.run()
     for kind, idx, got, info in pending:
@@ -504,6 +512,10 @@ def run(ctx):
             model = "ok" if "ok" in a else a["err"]
             if model != got:
                 ctx.broke("correspondence:fromData", {"model": model, "impl": got}, info)
+        elif kind == "fromdata_nd":
+            model = "ok" if "ok" in a else a.get("err", a)
+            if model != got:
+                ctx.broke("correspondence:fromDataND (Lean fromDataND/fromCovND vs from_data on an n-dimensional array)", {"model": model, "impl": got}, info)
         else:
             if "ok" not in a:
                 if a.get("err") == "eval-failed":
